@@ -27,11 +27,11 @@ def configs(tier, seed):
     q = 0 if tier == "quick" else 1
     out = []
     for algo, T in T_OF.items():
-        for part, d in (("B", 1), ("RB", 1), ("K3", 1), ("RK3", 1), ("DB", 2)):
-            if algo == "VROOM" and part in ("K3", "RK3", "DB"):
+        for part, d in (("B", 1), ("RB", 1), ("K3", 1), ("RK3", 1), ("DB", 2), ("B", 2), ("K3", 2)):
+            if algo == "VROOM" and (part in ("K3", "RK3", "DB") or d > 1):
                 continue
             for an, a in A_VALUES:
-                if part not in ("B", "RB") and an not in ("2", "1/4"):
+                if (part not in ("B", "RB") or d == 2) and an not in ("2", "1/4"):
                     continue
                 if algo == "DOO" and an != "1" and part != "B":
                     continue
@@ -81,7 +81,7 @@ def run(ctx, cfg):
         pa = c14.one_run(ctx, c, dom, rewards, T)
         f0 = ctx.forks_so_far()
         shims.rng_replay(fmap=fmap)
-        pb = c14.one_run(ctx, c, dom_b, rewards, T)
+        pb = c14.one_run(ctx, c, dom_b, rewards, T, second=True, tag="affine")
         if ctx.forks_so_far() != f0:
             ctx.count("image_run_forked")
     finally:
